@@ -198,6 +198,34 @@ async fn admission(a: &Value) -> Value {
     json!({"steps": out})
 }
 
+/// C14 on real networks: which pairs of networks can connect, by network name (primary / alternate).
+async fn network_names(_a: &Value) -> Value {
+    fn net(key: u8, name: &str, alt: Option<&str>) -> anemo::Network {
+        let mut c = Config::default();
+        c.connect_timeout_ms = Some(1500);
+        let b = anemo::Network::bind("127.0.0.1:0").server_name(name).private_key([key; 32]).config(c);
+        let b = match alt { Some(a) => b.alternate_server_name(a), None => b };
+        b.start(echo()).expect("network")
+    }
+    let nets = [("a1", net(31, "net-a", None)), ("a2", net(32, "net-a", None)), ("b1", net(33, "net-b", None)), ("ab", net(34, "net-a", Some("net-b"))), ("ba", net(35, "net-b", Some("net-a")))];
+    let mut out = Vec::new();
+    for (i, (ni, x)) in nets.iter().enumerate() {
+        for (j, (nj, y)) in nets.iter().enumerate() {
+            if i == j { continue; }
+            // make sure the two are not connected from an earlier round
+            let _ = x.disconnect(y.peer_id()); let _ = y.disconnect(x.peer_id());
+            tokio::time::sleep(Duration::from_millis(30)).await;
+            let r = x.connect_with_peer_id(y.local_addr(), y.peer_id()).await;
+            tokio::time::sleep(Duration::from_millis(30)).await;
+            let listed = x.peers().contains(&y.peer_id()) || y.peers().contains(&x.peer_id());
+            let rpc = if r.is_ok() { x.rpc(y.peer_id(), Request::new(Bytes::from_static(b"n"))).await.is_ok() } else { false };
+            out.push(json!({"dialer": ni, "listener": nj, "connect_ok": r.is_ok(), "either_lists_the_other": listed, "rpc_ok": rpc}));
+            let _ = x.disconnect(y.peer_id()); let _ = y.disconnect(x.peer_id());
+        }
+    }
+    json!({"pairs": out})
+}
+
 /// C11 wiring on real networks: are the configured inbound / outbound defaults in force for an RPC made through a network built in
 /// the given builder-call order?  The handler sleeps `handler_ms`; returns how the RPC ended and after how long.
 async fn default_timeouts(a: &Value) -> Value {
@@ -408,7 +436,7 @@ async fn history(args: &Value) -> Value {
 
 fn main() {
     let args: Vec<String> = std::env::args().collect();
-    let multi = matches!(args.get(1).map(|s| s.as_str()), Some("admission") | Some("default_timeouts") | Some("rpc_pairing") | Some("history") | Some("oversize_confined") | Some("hostile_streams"));
+    let multi = matches!(args.get(1).map(|s| s.as_str()), Some("admission") | Some("default_timeouts") | Some("rpc_pairing") | Some("history") | Some("oversize_confined") | Some("hostile_streams") | Some("network_names"));
     let rt = if multi {
         tokio::runtime::Builder::new_multi_thread().worker_threads(2).enable_all().build().unwrap()
     } else {
@@ -517,6 +545,7 @@ async fn run(args: Vec<String>) {
         "rpc_pairing" => rpc_pairing(&a).await,
         "default_timeouts" => default_timeouts(&a).await,
         "cert_corpus" => certs::cert_corpus(&a),
+        "network_names" => network_names(&a).await,
         "hostile_streams" => hostile::hostile_streams(&a).await,
         // several messages written in ONE process, one after the other (state kept between calls would show)
         "write_sequence" => {
